@@ -1,6 +1,7 @@
 import TonicModel.Model.Interceptor
 import TonicModel.Spec.Interceptor
 import TonicModel.Lemmas.Interceptor
+import TonicModel.Lemmas.InterceptorSched
 /-
 C12 — Interceptors change only what they change and can veto a call.
 Property theorems only; helper lemmas live in `Lemmas/Interceptor.lean` and `Basic/HMapLite.lean`.
@@ -519,8 +520,9 @@ private theorem resolve_future (d : Nat) (res : Except ε (Response ρ)) :
     rfl
 
 /-- Polling a `ResponseFuture` until it is ready gives the value it stands for, after exactly the
-wrapped future's own number of `Pending`s (none at all for a rejection) — for EVERY future value,
-whenever and in whatever order it is polled: `poll` takes the future alone, no service state. -/
+wrapped future's own number of `Pending`s (none at all for a rejection) — for EVERY future value.
+(ONE future, polled alone until ready; polls interleaved with those of other kept futures are the
+subject of `C12_poll_order_invisible`.) -/
 theorem C12_future_resolves (fut : RespFuture ρ ε) (h : fut ≠ .status none) :
     RespFuture.resolveWith addHeader (fut.pendingPolls + 1) fut =
       some (fut.outcomeWith addHeader, fut.pendingPolls) := by
@@ -549,11 +551,22 @@ theorem C12_future_resolves_to_call (f : Icpt σ) (inner : InnerD ι β ρ ε) (
   · rename_i s' st hf
     simp [RespFuture.outcomeWith, RespFuture.pendingPolls]
 
-/-- The moment and the order of polling are invisible: make ALL calls of a sequence first and keep
-the futures (poll them afterwards in any order, even after the service value is gone) — the wrapped
-service saw exactly what it sees when every future is awaited before the next call, the final states
-are the same, and every future stands for the outcome of its own call. -/
-theorem C12_poll_order_invisible (f : Icpt σ) (inner : InnerD ι β ρ ε) (s : σ) (i : ι) (reqs : List (Request β)) :
+private theorem runCallsFut_futs_ne (f : Icpt σ) (inner : InnerD ι β ρ ε) (reqs : List (Request β)) :
+    ∀ (s : σ) (i : ι), ∀ p ∈ (runCallsFut f inner s i reqs).2.2, p.2 ≠ .status none := by
+  induction reqs with
+  | nil => intro s i p hp; simp [runCallsFut] at hp
+  | cons r rs ih =>
+    intro s i p hp
+    simp only [runCallsFut, List.mem_cons] at hp
+    rcases hp with rfl | hp
+    · exact (C12_future_resolves_to_call f inner s i r).2.2.2.2.1
+    · exact ih _ _ p hp
+
+/-- The calls' effects happen in `call`, not in `poll`: make ALL calls of a sequence first and keep
+the futures — the wrapped service saw exactly what it sees when every future is awaited before the
+next call, the final states are the same, and every future stands for (`outcomeWith`) the outcome of
+its own call.  (No poll occurs in this statement; the polling itself is `C12_poll_order_invisible`.) -/
+theorem C12_calls_made_first_same_effects (f : Icpt σ) (inner : InnerD ι β ρ ε) (s : σ) (i : ι) (reqs : List (Request β)) :
     runCalls f inner.now s i reqs =
       ((runCallsFut f inner s i reqs).1, (runCallsFut f inner s i reqs).2.1,
        (runCallsFut f inner s i reqs).2.2.map (fun p => (p.1, p.2.outcomeWith addHeader))) := by
@@ -567,7 +580,44 @@ theorem C12_poll_order_invisible (f : Icpt σ) (inner : InnerD ι β ρ ε) (s :
     rw [← h1, ← h2, ih]
     simp [h3, h4]
 
-/-- The wrapped body's hints are the caller's hints, whatever they are (non-exact bounds, a body that
+/-- The moment and the order of polling are invisible: make ALL calls of a sequence first, keep the
+futures and poll them afterwards by ANY schedule (`pollSchedule`: a list saying which kept future is
+polled next — any interleaving, any number of polls of each, the service value no longer involved).
+First conjunct: the wrapped service saw exactly what it sees when every future is awaited before
+the next call, and the final states are the same (`C12_calls_made_first_same_effects`).  Second
+conjunct, for EVERY schedule and every call `k` of the sequence: the owner of future `k` gets exactly
+the outcome call `k` has in the sequential run as soon as the schedule has polled that future more
+often than the wrapped future stays `Pending` — and nothing before that — whichever other futures
+are polled in between, however often.
+What is and is not proved: that one `poll` touches nothing but the future polled is how
+`pollSchedule` is WRITTEN (it transcribes `ResponseFuture::poll(self: Pin<&mut Self>, cx)`, which has
+no service and no sibling future in hand) — the theorem adds the quantifier over all schedules and
+the link to the sequential run on top of that; that the real futures share nothing is what the
+`async` cases (futures kept, polled in permuted order, after the service was dropped) establish. -/
+theorem C12_poll_order_invisible (f : Icpt σ) (inner : InnerD ι β ρ ε) (s : σ) (i : ι) (reqs : List (Request β)) :
+    runCalls f inner.now s i reqs =
+      ((runCallsFut f inner s i reqs).1, (runCallsFut f inner s i reqs).2.1,
+       (runCallsFut f inner s i reqs).2.2.map (fun p => (p.1, p.2.outcomeWith addHeader))) ∧
+    ∀ (sched : List Nat) (k : Nat) (p : Option (Request β) × RespFuture ρ ε),
+      (runCallsFut f inner s i reqs).2.2[k]? = some p →
+      firstReady k (pollSchedule addHeader ((runCallsFut f inner s i reqs).2.2.map (·.2)) sched) =
+        if p.2.pendingPolls < sched.count k then
+          ((runCalls f inner.now s i reqs).2.2[k]?).map (·.2)
+        else none := by
+  refine ⟨C12_calls_made_first_same_effects f inner s i reqs, ?_⟩
+  intro sched k p hk
+  have hne : p.2 ≠ .status none :=
+    runCallsFut_futs_ne f inner reqs s i p (List.mem_of_getElem? hk)
+  rw [firstReady_pollSchedule addHeader sched _ k p.2 (by simp [hk]) hne,
+    C12_calls_made_first_same_effects]
+  simp [hk]
+
+/-- Transcription lemma (definitional, `⟨rfl, rfl, rfl, rfl⟩`): `RespBody.isEndStream` / `sizeHintRange`
+are written with one arm that hands the wrapped body to the caller's function and one constant arm, as
+`ResponseBody`'s `Body` impl is — this unfolds the model; that the real `ResponseBody` delegates its
+hints is established by the correspondence run (`async` cases with non-exact hints and bodies that
+never report end-of-stream).  Twin of `C12_response_body_delegates`.
+The wrapped body's hints are the caller's hints, whatever they are (non-exact bounds, a body that
 never says "end"): `ResponseBody::Wrap` delegates; the rejection's body is exactly empty and at its end. -/
 theorem C12_response_body_hints_delegate (eos : ρ → Bool) (hint : ρ → Nat × Option Nat) (b : ρ) :
     RespBody.isEndStream eos (RespBody.wrap b) = eos b ∧
@@ -582,6 +632,22 @@ example :
         (fun (n : Nat) (_ : Request Nat) => (n + 1, 2, (.error 7 : Except Nat (Response Unit)))) () 0
         { method := str "POST", version := 2, uri := str "/s/m", headers := [], ext := [], body := 5 }).fut
       = some (.error 7, 2) := by rfl
+
+
+/-- non-vacuity of the schedule half of `C12_poll_order_invisible`: three calls made first (the
+second one rejected), the futures polled in the order 2, 0, 2, 1, 0, 0, 2 — future 0 (Pending
+twice) is ready at its third poll, future 1 (a rejection) at its first, future 2 (Pending once) at
+its second; each owner gets its own call's outcome -/
+example :
+    let inner : InnerD Nat Nat Unit Nat := fun n q => (n + 1, (if q.body = 0 then 2 else 1), .error (q.body + 10))
+    let f : Icpt Nat := fun n mx => (n + 1, if n = 1 then .error { code := 7, message := [], details := [], metadata := [] } else .ok mx)
+    let rq (b : Nat) : Request Nat := { method := str "POST", version := 2, uri := str "/s/m", headers := [], ext := [], body := b }
+    let futs := (runCallsFut f inner 0 0 [rq 0, rq 1, rq 2]).2.2.map (·.2)
+    (pollSchedule addHeader futs [2, 0, 2, 1, 0, 0, 2]).map (·.1) = [2, 1, 0, 2] ∧
+    firstReady 0 (pollSchedule addHeader futs [2, 0, 2, 1, 0, 0, 2]) = some (.error 10) ∧
+    firstReady 2 (pollSchedule addHeader futs [2, 0, 2, 1, 0, 0, 2]) = some (.error 12) ∧
+    firstReady 0 (pollSchedule addHeader futs [2, 0, 2, 1, 0]) = none := by
+  refine ⟨by rfl, by rfl, by rfl, by rfl⟩
 
 
 end C12
